@@ -4874,7 +4874,12 @@ func (p *Parser) parseMacroBodyNode() (ast.Node, error) {
 		if err != nil {
 			return nil, err
 		}
-		return item.(*ast.Route), nil
+		// parseRoute also yields WebSocket, cron, ... items for `@ ws`, `@ cron`
+		route, ok := item.(*ast.Route)
+		if !ok {
+			return nil, fmt.Errorf("only HTTP routes can be declared with @ inside a macro body, got %T", item)
+		}
+		return route, nil
 
 	case COLON:
 		// Type definition inside macro
@@ -4882,7 +4887,11 @@ func (p *Parser) parseMacroBodyNode() (ast.Node, error) {
 		if err != nil {
 			return nil, err
 		}
-		return item.(*ast.TypeDef), nil
+		typeDef, ok := item.(*ast.TypeDef)
+		if !ok {
+			return nil, fmt.Errorf("expected a type definition inside a macro body, got %T", item)
+		}
+		return typeDef, nil
 
 	case DOLLAR, GREATER, QUESTION:
 		// Statement
@@ -4908,7 +4917,11 @@ func (p *Parser) parseMacroBodyNode() (ast.Node, error) {
 				if err != nil {
 					return nil, err
 				}
-				return inv.(*ast.MacroInvocation), nil
+				invocation, ok := inv.(*ast.MacroInvocation)
+				if !ok {
+					return nil, fmt.Errorf("expected a macro invocation inside a macro body, got %T", inv)
+				}
+				return invocation, nil
 			}
 			// Try as expression statement
 			stmt, err := p.parseStatement()
